@@ -99,6 +99,7 @@ func (c *channel) newNodeStream(conn *grpc.ClientConn) error {
 	c.streamCtx, c.cancelStream = context.WithCancel(c.parentCtx)
 	c.gorumsClient = ordering.NewGorumsClient(conn)
 	c.gorumsStream, err = c.gorumsClient.NodeStream(c.streamCtx)
+	stream := c.gorumsStream
 	c.streamMut.Unlock()
 	if err != nil {
 		return err
@@ -109,7 +110,7 @@ func (c *channel) newNodeStream(conn *grpc.ClientConn) error {
 		// connEstablished indicates dial was successful
 		// and that receiver have started
 		c.connEstablished.set()
-		go c.receiver()
+		go c.receiver(stream)
 	}
 	return nil
 }
@@ -258,13 +259,22 @@ func (c *channel) sender() {
 	}
 }
 
-func (c *channel) receiver() {
+func (c *channel) receiver(stream ordering.Gorums_NodeStreamClient) {
 	for {
 		resp := newMessage(responseType)
-		c.streamMut.RLock()
-		err := c.gorumsStream.RecvMsg(resp)
+		// Do not hold the stream lock while blocked in RecvMsg: a sender that needs
+		// the write lock to re-create the stream would otherwise wait for a reply that
+		// cannot arrive, because it is the one who must send the request.
+		// The receiver keeps reading a stream until it fails, also after the sender has
+		// replaced it, so that the failure of every stream is observed and the calls
+		// pending on it are completed with an error.
+		err := stream.RecvMsg(resp)
 		if err != nil {
-			c.streamBroken.set()
+			c.streamMut.RLock()
+			if stream == c.gorumsStream {
+				// the current stream failed; it has not been replaced by the sender meanwhile.
+				c.streamBroken.set()
+			}
 			c.streamMut.RUnlock()
 			c.setLastErr(err)
 			// we only reach this point when the stream failed AFTER a message
@@ -274,8 +284,11 @@ func (c *channel) receiver() {
 			// attempt to reconnect indefinitely until the node is closed.
 			// This is necessary when streaming is enabled.
 			c.reconnect(-1)
-		} else {
+			// continue with the current stream, whoever created it.
+			c.streamMut.RLock()
+			stream = c.gorumsStream
 			c.streamMut.RUnlock()
+		} else {
 			err := status.FromProto(resp.Metadata.GetStatus()).Err()
 			c.routeResponse(resp.Metadata.MessageID, response{nid: c.node.ID(), msg: resp.Message, err: err})
 		}
@@ -343,7 +356,9 @@ func (c *channel) reconnect(maxRetries float64) {
 		c.streamMut.Unlock()
 		c.setLastErr(err)
 		if retries >= maxRetries && maxRetries > 0 {
-			c.streamBroken.set()
+			// give up; the broken flag is still set, unless somebody else has re-created
+			// the stream in the meantime (setting it again here would mark a healthy
+			// stream as broken and make the sender replace it under the receiver's feet).
 			return
 		}
 		delay := float64(backoffCfg.BaseDelay)
